@@ -118,6 +118,7 @@ def valJ : Val → Json
   | .str s => Json.arr #[Json.str "s", Json.str s]
   | .cat s lv => Json.arr #[Json.str "c", Json.str s, ofList Json.str lv]
   | .tup l => Json.arr #[Json.str "t", ofList num l]
+  | .flt i => num i
 
 def keyJ : Key → Json
   | .pos n => num n
